@@ -16,7 +16,7 @@ import warnings
 
 from harness import core, lnd_drive, lnd_oracles
 
-MODULES = ["AdaptiveProofs.Props.C04"]
+MODULES = ["AdaptiveProofs.Props.C04", "AdaptiveProofs.Props.C04Reach"]
 _G = re.compile(r" ~g=(\d)$")
 
 
@@ -197,7 +197,7 @@ PARTIAL = [
 
 
 def run(ctx):
-    proof = core.prove(MODULES, leanchecker=ctx.thorough)
+    proof = core.prove(MODULES, extra_targets=["AdaptiveProofs.Examples.C04Reach"], leanchecker=ctx.thorough)
     failures = []
     corr = core.Corr("LearnerND~LND.lean")
     cases = [dict(c) for c in lnd_drive.CORPUS] + gen_cases(ctx.rng, ctx.n(260, 4000), ctx.n(34, 70))
